@@ -6,6 +6,49 @@ import json
 import sys
 
 
+def sent_keys(machine, rec):
+    """Multiset (sorted list of strings) of canonical functionals / LMIs that crossed the wrapper boundary,
+    with leaves labelled by the register they are bound to ('auto' for leaves no register holds)."""
+    from pv import canon
+    from PEPit.point import Point
+    from PEPit.expression import Expression
+    names = {}
+    for nm in sorted(machine.regs):
+        o = machine.regs[nm]
+        if isinstance(o, (Point, Expression)) and o.get_is_leaf():
+            names.setdefault(id(o), nm)
+    obj = rec.get("objective")
+
+    def label(leaf):
+        if leaf is obj:
+            return "objective"
+        return names.get(id(leaf), "auto")
+
+    out = []
+    for kind, o, tracked in rec["sent"]:
+        if not tracked:
+            continue
+        if kind == "c":
+            k = canon.functional_key(o.expression, o.equality_or_inequality, label)
+            out.append(repr(k))
+        else:
+            ent = []
+            for i in range(o.shape[0]):
+                for j in range(o.shape[1]):
+                    G, F, c = canon.expr_coeffs(o[i, j])
+                    t = {}
+                    for (p, q), v in G.items():
+                        kk = ("G",) + tuple(sorted((label(p), label(q))))
+                        t[kk] = t.get(kk, 0.0) + v
+                    for e, v in F.items():
+                        t[("F", label(e))] = t.get(("F", label(e)), 0.0) + v
+                    if c:
+                        t[("C",)] = c
+                    ent.append(tuple(sorted((kk, float("%.9e" % v)) for kk, v in t.items() if v != 0)))
+            out.append(repr(("lmi", tuple(o.shape), tuple(ent))))
+    return sorted(out)
+
+
 def run_B(prog, cfg, schedule=None):
     """Build prog, solve under cfg (or follow `schedule`, a list of extra ops incl. solves), return observation."""
     from pv import gen, driver, dump
@@ -38,6 +81,9 @@ def run_B(prog, cfg, schedule=None):
                 else:
                     d = dump.solve_dump(rec, out)
                     d["class_state_after"] = dump.class_state()
+                    if cfg.get("keys"):
+                        d = {"keys": sent_keys(m, rec), "results": d["results"], "inner_status": d["inner_status"],
+                             "n_points": d["n_points"], "n_exprs": d["n_exprs"]}
                     obs["solves"].append(d)
     if cfg.get("eval_null"):
         from PEPit.point import null_point
